@@ -11,4 +11,6 @@ def load(cfg='cli'):
     dirs, key = extract.ensure([cfg])
     F = Facts(cfg, dirs[cfg])
     flow.register_enums(F)
+    import inline
+    inline.apply(F)
     return F
